@@ -174,6 +174,8 @@ fn recomp_case(rt: &tokio::runtime::Runtime, dir: &Path, case: &Value, n: usize)
 			ev["ok"] = json!(0);
 			ev["declared"] = json!("");
 			ev["lookups"] = json!([]);
+			ev["lookup_raw"] = json!([]);
+			ev["walk_raw"] = json!([]);
 			ev["walk"] = json!([]);
 			ev["walk_ok"] = json!(0);
 			ev["file"] = json!({"skip":1,"ok":0,"tiles":[],"tc":"","meta_name":""});
@@ -195,18 +197,27 @@ fn recomp_case(rt: &tokio::runtime::Runtime, dir: &Path, case: &Value, n: usize)
 		}
 	};
 	let mut lookups = vec![];
+	let mut lookup_raw = vec![];
 	for t in &src.tiles {
 		let cc = TileCoord3::new(t.1, t.2, t.0).unwrap();
+		let mut raw_hash: i64 = 0;
 		let r = match catch(|| rt.block_on(reader.get_tile_data(&cc))) {
-			Ok(Ok(Some(b))) => id_of(b.as_slice(), &declared),
+			Ok(Ok(Some(b))) => {
+				raw_hash = h31(b.as_slice()) as i64;
+				id_of(b.as_slice(), &declared)
+			}
 			Ok(Ok(None)) => RES_NONE,
 			Ok(Err(_)) => RES_ERR,
 			Err(_) => RES_PANIC,
 		};
 		lookups.push(json!([t.0, t.1, t.2, r]));
+		lookup_raw.push(json!([t.0, t.1, t.2, raw_hash]));
 	}
 	ev["lookups"] = json!(lookups);
+	// the delivered BYTES (hash) of the lookup path and, below, of the stream path: C02 asks for identical bytes
+	ev["lookup_raw"] = json!(lookup_raw);
 	let mut walk: Vec<(u8, u32, u32, i64)> = vec![];
+	let mut walk_raw: Vec<(u8, u32, u32, i64)> = vec![];
 	let mut walk_ok = 1;
 	for b in reader.get_parameters().bbox_pyramid.clone().iter_levels() {
 		let bb = b.clone();
@@ -214,6 +225,7 @@ fn recomp_case(rt: &tokio::runtime::Runtime, dir: &Path, case: &Value, n: usize)
 			Ok(items) => {
 				for (cc, blob) in items {
 					walk.push((cc.z, cc.y, cc.x, id_of(blob.as_slice(), &declared)));
+					walk_raw.push((cc.z, cc.y, cc.x, h31(blob.as_slice()) as i64));
 				}
 			}
 			Err(_) => walk_ok = 0,
@@ -222,6 +234,8 @@ fn recomp_case(rt: &tokio::runtime::Runtime, dir: &Path, case: &Value, n: usize)
 	walk.sort();
 	ev["walk_ok"] = json!(walk_ok);
 	ev["walk"] = json!(walk.iter().map(|t| json!([t.0, t.2, t.1, t.3])).collect::<Vec<_>>());
+	walk_raw.sort();
+	ev["walk_raw"] = json!(walk_raw.iter().map(|t| json!([t.0, t.2, t.1, t.3])).collect::<Vec<_>>());
 	// real conversion into a container file
 	let path = file_path(dir, fmt, "recomp");
 	remove_path(&path);
